@@ -39,6 +39,15 @@ type GoBackNConn struct {
 	recvDataChan chan *PacketData
 	sendDataChan chan *PacketData
 
+	// recvPartial holds the chunks of a message that Recv has already
+	// taken off recvDataChan while the final chunk of the message is still
+	// outstanding. It is kept here rather than in a local variable of Recv
+	// so that a Recv call which times out in the middle of a message does
+	// not lose the chunks it consumed: the next call continues the message.
+	// recvPartial must be guarded by recvPartialMtx.
+	recvPartial    []byte
+	recvPartialMtx sync.Mutex
+
 	log btclog.Logger
 
 	// receivedACKSignal channel is used to signal that the queue size has
@@ -210,10 +219,7 @@ func (g *GoBackNConn) Recv() ([]byte, error) {
 	default:
 	}
 
-	var (
-		b   []byte
-		msg *PacketData
-	)
+	var msg *PacketData
 
 	ticker := time.NewTimer(g.timeoutManager.GetRecvTimeout())
 	defer ticker.Stop()
@@ -227,14 +233,18 @@ func (g *GoBackNConn) Recv() ([]byte, error) {
 		case msg = <-g.recvDataChan:
 		}
 
-		b = append(b, msg.Payload...)
+		g.recvPartialMtx.Lock()
+		g.recvPartial = append(g.recvPartial, msg.Payload...)
 
 		if msg.FinalChunk {
-			break
-		}
-	}
+			b := g.recvPartial
+			g.recvPartial = nil
+			g.recvPartialMtx.Unlock()
 
-	return b, nil
+			return b, nil
+		}
+		g.recvPartialMtx.Unlock()
+	}
 }
 
 // start kicks off the various goroutines needed by GoBackNConn.
